@@ -153,7 +153,8 @@ def mutate(r, f):
         cand = [t for t in g.tasks if t["outs"]]
         if not cand:
             return None
-        r.choice(cand)["outs"].append(nt)
+        outs = r.choice(cand)["outs"]
+        outs.insert(r.randrange(len(outs) + 1), nt)      # anywhere among the task's outputs, not only last
     elif kind == "strip_invoke":
         cand = [t for t in g.tasks if t["invoke"]]
         if not cand:
